@@ -622,10 +622,13 @@ impl AssetCategorizer {
         let mut dependable_value = None;
         let mut min_value = None;
         if let Some(last_output) = tx_proposal.get_outputs().last() {
+            // what is left for the last output and the fee together: the unused ada is already net of the
+            // fee set by an earlier estimate, and the fee is subtracted again by the estimator
             dependable_value = Some(
                 tx_proposal
                     .get_unused_ada()?
-                    .checked_add(&last_output.get_total_ada())?,
+                    .checked_add(&last_output.get_total_ada())?
+                    .checked_add(tx_proposal.get_fee())?,
             );
             min_value = Some(last_output.get_min_ada());
             tx_len -= CborCalculator::get_coin_size(&last_output.get_total_ada());
